@@ -168,7 +168,14 @@ class SyncedList(SyncedCollection, MutableSequence):
                     new_data = data[len(self) :]
                     if not _validate:
                         self._validate(new_data)
-                    self.extend(new_data)
+                    # Extend the underlying list directly: the public extend()
+                    # acquires the thread lock, which a load must never do.
+                    self._data.extend(
+                        [
+                            self._from_base(data=value, parent=self)
+                            for value in new_data
+                        ]
+                    )
         else:
             raise ValueError(
                 "Unsupported type: {}. The data must be a non-string sequence or None.".format(
